@@ -178,3 +178,114 @@ package document
 //@   loop 1 invariant out.RawData === data && fresh(out.RawData) && fresh(out)
 //@   loop 1 decreases numInstances + 1 - occur
 //@   safety all
+
+// the remaining template-based files: same three facts (private copy, outer tag, object or error) plus memory safety
+
+//@ func NewCOM
+//@   props C19 C12
+//@   ensures "absent-file": len(data) < 1 ==> result0 == nil && result1 == nil
+//@   ensures "raw-bytes-are-a-private-copy": result0 != nil ==> result0.RawData === data && fresh(result0.RawData) && fresh(result0)
+//@   ensures "outer-tag-is-the-data-group-tag": result0 != nil ==> topCount(data) >= 1 && firstTag(data) == 96
+//@   ensures "object-or-error": len(data) >= 1 ==> (result0 != nil) == (result1 == nil)
+//@   safety all
+
+//@ func NewDG7
+//@   props C19 C12
+//@   loop 1 invariant occurrence >= 1 && occurrence <= numImages + 1 && numImages <= 9 && out != nil && out.RawData === data && fresh(out.RawData) && fresh(out) && rootNode != nil
+//@   loop 1 invariant topCount(data) >= 1 && firstTag(data) == 103
+//@   loop 1 decreases numImages + 1 - occurrence
+//@   ensures "absent-file": len(data) < 1 ==> result0 == nil && result1 == nil
+//@   ensures "raw-bytes-are-a-private-copy": result0 != nil ==> result0.RawData === data && fresh(result0.RawData) && fresh(result0)
+//@   ensures "outer-tag-is-the-data-group-tag": result0 != nil ==> topCount(data) >= 1 && firstTag(data) == 103
+//@   ensures "object-or-error": len(data) >= 1 ==> (result0 != nil) == (result1 == nil)
+//@   safety all
+
+//@ func NewDG12
+//@   props C19 C12
+//@   ensures "absent-file": len(data) < 1 ==> result0 == nil && result1 == nil
+//@   ensures "raw-bytes-are-a-private-copy": result0 != nil ==> result0.RawData === data && fresh(result0.RawData) && fresh(result0)
+//@   ensures "outer-tag-is-the-data-group-tag": result0 != nil ==> topCount(data) >= 1 && firstTag(data) == 108
+//@   ensures "object-or-error": len(data) >= 1 ==> (result0 != nil) == (result1 == nil)
+//@   safety all
+
+//@ func NewDG14
+//@   props C19 C12
+//@   ensures "absent-file": len(data) < 1 ==> dg14 == nil && err == nil
+//@   ensures "raw-bytes-are-a-private-copy": dg14 != nil ==> dg14.RawData === data && fresh(dg14.RawData) && fresh(dg14)
+//@   ensures "outer-tag-is-the-data-group-tag": dg14 != nil ==> topCount(data) >= 1 && firstTag(data) == 110
+//@   ensures "object-or-error": len(data) >= 1 ==> (dg14 != nil) == (err == nil)
+//@   ensures "security-infos-decoded": dg14 != nil ==> dg14.SecInfos != nil
+//@   safety all
+
+//@ func NewDG16
+//@   props C19 C12
+//@   ensures "absent-file": len(data) < 1 ==> result0 == nil && result1 == nil
+//@   ensures "raw-bytes-are-a-private-copy": result0 != nil ==> result0.RawData === data && fresh(result0.RawData) && fresh(result0)
+//@   ensures "outer-tag-is-the-data-group-tag": result0 != nil ==> topCount(data) >= 1 && firstTag(data) == 112
+//@   ensures "object-or-error": len(data) >= 1 ==> (result0 != nil) == (result1 == nil)
+//@   safety all
+
+// DG13 / DG15 are unwrapped with tlv.UnwrapTag: the outer tag is the first identifier octet(s) of the file, the length
+// field covers the rest of the file exactly, and the content is what follows the header.
+//@ func NewDG13
+//@   props C19 C12
+//@   ensures "absent-file": len(data) < 1 ==> out == nil && err == nil
+//@   ensures "raw-bytes-are-a-private-copy": out != nil ==> out.RawData === data && fresh(out.RawData) && fresh(out)
+//@   ensures "outer-tag-and-content": out != nil ==> beN(data, tagLenS(data)) == 109
+//@        && out.Content === data[tagLenS(data) + lenLenS(data[tagLenS(data):]):]
+//@   ensures "object-or-error": len(data) >= 1 ==> (out != nil) == (err == nil)
+//@   assigns nothing
+//@   safety all
+
+//@ func NewDG15
+//@   props C19 C12 C07
+//@   ensures "absent-file": len(data) < 1 ==> result0 == nil && result1 == nil
+//@   ensures "raw-bytes-are-a-private-copy": result0 != nil ==> result0.RawData === data && fresh(result0.RawData) && fresh(result0)
+//@   ensures "outer-tag-and-key-bytes": result0 != nil ==> beN(data, tagLenS(data)) == 111 && len(result0.SubjectPublicKeyInfoBytes) >= 1
+//@        && result0.SubjectPublicKeyInfoBytes === data[tagLenS(data) + lenLenS(data[tagLenS(data):]):]
+//@   ensures "object-or-error": len(data) >= 1 ==> (result0 != nil) == (result1 == nil)
+//@   assigns nothing
+//@   safety all
+
+// DecodeSecurityInfos dispatches on the protocol OID through a table of handler functions (dynamic calls: the frame is
+// assumed, the body is checked for memory safety with the handlers abstracted).
+//@ func DecodeSecurityInfos
+//@   props C19 C12
+//@   ensures (err == nil) == (secInfos != nil)
+//@   ensures fresh(secInfos)
+//@   assigns nothing
+//@   trustedframe
+//@   safety all
+
+//@ func (details *DocumentDetails) processTag
+//@   props C19 C12
+//@   requires details != nil && node != nil
+//@   loop 1 invariant occur >= 1 && details != nil && node != nil
+//@   assigns details
+//@   trustedframe
+//@   safety all
+
+//@ func (details *PersonDetails) processTag5F0F
+//@   props C19 C12
+//@   requires details != nil && parentNode != nil
+//@   loop 1 invariant occur >= 1 && details != nil && parentNode != nil
+//@   loop 2 invariant occur >= 1 && details != nil && parentNode != nil
+//@   wraparound
+//@   assigns details
+//@   trustedframe
+//@   safety all
+
+//@ func (details *PersonDetails) processTag
+//@   props C19 C12
+//@   requires details != nil && node != nil
+//@   assigns details
+//@   trustedframe
+//@   safety all
+
+//@ func NewDG11
+//@   props C19 C12
+//@   ensures "absent-file": len(data) < 1 ==> result0 == nil && result1 == nil
+//@   ensures "raw-bytes-are-a-private-copy": result0 != nil ==> result0.RawData === data && fresh(result0.RawData) && fresh(result0)
+//@   ensures "outer-tag-is-the-data-group-tag": result0 != nil ==> topCount(data) >= 1 && firstTag(data) == 107
+//@   ensures "object-or-error": len(data) >= 1 ==> (result0 != nil) == (result1 == nil)
+//@   safety all
